@@ -169,7 +169,7 @@ PROPS = {
                    "block's indentation) before, between and after the statements of every body and between options; trailing comments and blanks; every spelling of "
                    "every operator and of the assignment; redundant parentheses; extra blanks inside commands and expressions. Both renderings must load, the parsed "
                    "dialogues must be deep-equal (also when all nodes are put into one reader), and the traces, host-function and command logs for two choice "
-                   "sequences must be equal. One comment line and one whitespace-only line per layout may be up to 140 000 characters long. Indentation may change kind from level to level, every line may have its own line end (LF, CRLF, CR), and a multi-byte character may be moved across a multiple of 512 B ... 4 MiB. Search, not proof.",
+                   "sequences must be equal. One comment line and one whitespace-only line per layout may be up to 140 000 characters long. Indentation may change kind from level to level, every line may have its own line end (LF, CRLF, CR), and a multi-byte character may be moved across a multiple of 512 B ... 4 MiB. Search, not proof. The markup attributes of every element are compared too; blanks before trailing comments; files read as consecutive windows on one stream.",
         level_note="Blanks that separate literal line text (or a trailing inline expression) from a trailing comment are part of the line's text in the parsed dialogue - "
                    "the repository's own tree snapshots pin this - so in that position the comment is attached without a blank. Extra blanks between 'jump' and its "
                    "destination are a known finding and are excluded by construction (replay/C08/jump-double-blank.json).",
@@ -210,7 +210,7 @@ PROPS = {
                    "the handler is provably still blocked, without handler invocation, function call or storer write; after completion was reported the next Next "
                    "resumes (bounded polling only for the goroutine shapes, whose delivery is asynchronous); an error is returned by exactly one call; the statement "
                    "after the command runs exactly once and its marker is the next element; every command statement invoked its handler exactly once with its "
-                   "arguments. The whole binary runs under -race: any report is a violation. <<wait n>>: completion no earlier than n after the starting call. In a third of the <<wait>> cases the first wait is abandoned by RestoreAt part-way and the dialogue is run again: every wait still lasts its full time. A refused restore while a command is pending changes nothing; an abandoned raw handler reads its own arguments when it finishes. Search, not proof.",
+                   "arguments. The whole binary runs under -race: any report is a violation. <<wait n>>: completion no earlier than n after the starting call. In a third of the <<wait>> cases the first wait is abandoned by RestoreAt part-way and the dialogue is run again: every wait still lasts its full time. A refused restore while a command is pending changes nothing; an abandoned raw handler reads its own arguments when it finishes. Search, not proof. Commands that a chosen option leads to directly; handlers of the same names on another runner of the process; a restore after the pending command has already reported its outcome.",
         level_note="The harness owns the completion schedule, not the goroutine scheduler: for the two goroutine shapes the moment at which the bridge's goroutine delivers "
                    "the result is not controlled (polling is bounded at 100000 polls of 200 microseconds). Time is only used as a lower bound (wait) or as a 10 s liveness limit in a situation "
                    "made deterministic. When a channel is already filled on return, the starting Next may either go on or report waiting once (statement silent).",
@@ -244,7 +244,7 @@ PROPS = {
         technique="model-based PBT: fault-free scripts driven to their end (stop at any depth / node end / end after an option group), then further Next calls with arbitrary arguments checked for the end marker and for absence of side effects on a recording storer and logging handlers",
         level_text="Generated scripts biased towards <<stop>> inside nested bodies with statements remaining and towards ends right after option groups, with <<wait n>> commands that complete by themselves and a never-completing host command registered under 'stop', are driven "
                    "to the first end; 1-6 further Next calls with arbitrary arguments (0, in range, out of range, negative, huge) must each return (nil, nil) "
-                   "without panic, storer write, host-function call or command dispatch. A host function that panics is part of the scripts: whatever Next does with the panic, once it has reported the end nothing may be shown or run. Host errors wrapping io.EOF are errors, not the end; enumerated: a stop nested 1-24 blocks deep. Search, not proof.",
+                   "without panic, storer write, host-function call or command dispatch. A host function that panics is part of the scripts: whatever Next does with the panic, once it has reported the end nothing may be shown or run. Host errors wrapping io.EOF are errors, not the end; enumerated: a stop nested 1-24 blocks deep. Search, not proof. A quarter of the scripts contain failing jumps and are driven past every error until the runner itself reports the end.",
         level_note="The runner is driven until it reports the end itself (runs without an end inside the element limit are discarded, counted); the reference interpreter only classifies how the end was reached.",
         rule="acyclic scripts (forward jumps only, so every run ends) x choices x 1-6 arguments for the calls after the end; non-trivial = end by stop with "
              "statements remaining or inside a nested body, or end directly after an option group; distinct = distinct serialised cases.",
@@ -256,7 +256,7 @@ PROPS = {
         level_text="Lines are assembled from a segment grammar (text incl. multi-byte and edge whitespace, escapes, open/close/close-all/"
                    "self-closing markers with typed properties and padding, nesting/overlap, character prefix, select/plural/ordinal/nomarkup) and "
                    "the parse result is compared with a model computed from the structure: text, attribute multiset (name, rune position, length, "
-                   "typed properties), TextForAttribute. Enumerated: ordinal/plural 0..130, decimal literal forms, character names, text-bit pairs. Text bits include characters whose last UTF-8 byte is 0x85 or 0xA0 and wide blanks; every marker kind is enumerated after 0-3 characters of text. Further: trimwhitespace on replacement markers, bare words equal to true/false only under Unicode case folding, an unclosed marker named character next to a Name: prefix. Search, not proof.",
+                   "typed properties), TextForAttribute. Enumerated: ordinal/plural 0..130, decimal literal forms, character names, text-bit pairs. Text bits include characters whose last UTF-8 byte is 0x85 or 0xA0 and wide blanks; every marker kind is enumerated after 0-3 characters of text. Further: trimwhitespace on replacement markers, bare words equal to true/false only under Unicode case folding, an unclosed marker named character next to a Name: prefix. Search, not proof. Several markers of one name open at once next to markers of other names are decided by a pairing-rule independent oracle (starts, multiset of ends, same attributes with and without the other names).",
         level_note="Constellations on which the documentation is silent are not generated (a whitespace-swallowing marker directly after another marker "
                    "or escape, re-opening a name that is still open, raw ']' in text, a colon outside a leading 'Name: ' prefix decides nothing about the "
                    "character attribute). Decimal properties are compared with 1e-12 relative tolerance.",
@@ -312,7 +312,7 @@ PROPS = {
                    "arguments of mostly fitting, sometimes wrong, count and type. Registration must never panic; non-functions, nil, unbridgeable parameter or result "
                    "kinds and too many results must be refused; predeclared signatures with legal result shapes must be accepted; an accepted function is either "
                    "refused at call time (count/type mismatch, without running) or runs exactly once with arguments equal to Go's conversion to the declared type, and "
-                   "its value or error reaches the script; after a refused registration the name is simply unknown (an error, never a panic); the bridge never panics. Exhaustive: all parameter lists of length <= 2 over the pool. Channel result types outside the pool (chan of a concrete error type, send-only, named) must never panic or hang; in a quarter of the synchronous cases the host function registers functions and commands on the calling runner while it runs; every Next runs under a 20 s watchdog. Registration under built-in names, an earlier handler surviving a refused registration, one conversion rule for fractional numbers, result types with a String method, function-local types that print alike. Search, not proof.",
+                   "its value or error reaches the script; after a refused registration the name is simply unknown (an error, never a panic); the bridge never panics. Exhaustive: all parameter lists of length <= 2 over the pool. Channel result types outside the pool (chan of a concrete error type, send-only, named) must never panic or hang; in a quarter of the synchronous cases the host function registers functions and commands on the calling runner while it runs; every Next runs under a 20 s watchdog. Registration under built-in names, an earlier handler surviving a refused registration, one conversion rule for fractional numbers, result types with a String method, function-local types that print alike. Search, not proof. Nil channels returned by channel-shaped handlers and nil values of function types are never a panic.",
         level_note="Where the statement does not decide (uint kinds, interface{} parameters, a command returning a plain value) registration may go either way, but 'accepted "
                    "implies callable' still applies. A fractional number sent to an integer parameter may arrive as either neighbouring integer. Typed nil function "
                    "values and error-implementing pointer result types are not generated (outside the stated type pool).",
@@ -333,7 +333,7 @@ PROPS = {
                    "1e5, 0x10, 0x1p4, +5, 1_0, -, --x, keywords as words), {expressions} of each type, and 0-2 extra blanks at every position, are run with a logging "
                    "handler under the name and decoy handlers under stop/if/set/jump/call/... . The handler must be invoked exactly once with exactly the typed values "
                    "in order and the dialogue must continue after the command; <<stop ...>> ends the dialogue without any dispatch; an unregistered name is an "
-                   "error without any dispatch. Exhaustive: every pooled word as only/first/last argument of every pooled name. Decimal words include k*2^e + d up to 2^128 with a point anywhere; the handler may replace an earlier raw or converted registration of the same name. Handlers keep the slices they were given: they still read the same after later commands. Search, not proof.",
+                   "error without any dispatch. Exhaustive: every pooled word as only/first/last argument of every pooled name. Decimal words include k*2^e + d up to 2^128 with a point anywhere; the handler may replace an earlier raw or converted registration of the same name. Handlers keep the slices they were given: they still read the same after later commands. Search, not proof. Literal negations among the expression arguments; a handler of the same name on another runner of the process.",
         level_note="Trusts the classifier (classifyCommandWord: true/false, ^-?digits(.digits)?$ numbers, everything else a string). Not generated because the statement is "
                    "silent: '5.' and '.5', tabs as separators, words containing '>' or '{', expressions glued to words. Names starting with else/endif/endenum are a "
                    "known finding and excluded by construction (replay/C17/name-starting-with-*.json).",
@@ -366,7 +366,7 @@ PROPS = {
                    "sign/exponent/mantissa and known awkward decimals, supplied through the storer and captured exactly by a host function: the stated inequalities for "
                    "floor, ceil, inc, dec, integer, decimal (integer+decimal = x exactly), round (|r-x| <= 0.5 exactly), round_places (|r-x| <= 0.5*10^-n + 4 ulp(x), "
                    "n in 0..8), number(string(x)) == x, bool(string(b)) == b, identity of string/number/bool on their own type, and errors for strings that are neither "
-                   "numbers nor booleans. Sweep: every k, k+0.5, k+-ulp for |k| <= 2000 (thorough 100000) and every power of two with neighbours. Every numeric built-in is first called with a string on the same runner; calls nested among the arguments give the same result. Search, not proof.",
+                   "numbers nor booleans. Sweep: every k, k+0.5, k+-ulp for |k| <= 2000 (thorough 100000) and every power of two with neighbours. Every numeric built-in is first called with a string on the same runner; calls nested among the arguments give the same result. Search, not proof. A third of the cases keep three results of each built-in alive at once; a quarter run next to a decoy runner that overrides every built-in.",
         level_note="round_places is given a stated tolerance of 4 ulp(x) on top of half a unit (multiplying by 10^n rounds; measured worst case 1 ulp). Non-convertible strings "
                    "avoid spellings strconv accepts (inf, nan, hex, exponents, 1/t/T/0/f/F).",
         rule="x from ten constructions x n in 0..8 x b x a non-convertible string; non-trivial = x is not an integer; distinct = distinct (x bits, n, b, s).",
